@@ -63,9 +63,14 @@ static std::string hex(const uint8 * p, size_t n) {static const char * d = "0123
 static std::string hex(const Bytes & b) {return b.empty() ? std::string() : hex(&b[0], b.size());}
 static uint32 U(const std::string & s) {return (uint32) strtoull(s.c_str(), NULL, 10);}
 
+// The model's source address (a number) stands for an IPAddressAndPort: address a is host ADDR_BASE + a/4, port
+// PORT_BASE + a%4.  So addresses 4k..4k+3 are four sockets on ONE host (same IP, different ports) and a, a+4 are the
+// same port on different hosts: a receive-state table keyed on less (or more) than the full IP-and-port shows up both
+// in the deliveries and in the table dump (keys are printed through addr_of, the exact inverse on well-formed keys).
 static const uint64 ADDR_BASE = 0x0A000000ULL;
-static IPAddressAndPort iap_of(uint32 a) {return IPAddressAndPort(IPAddress(ADDR_BASE+a), 4000);}
-static uint32 addr_of(const IPAddressAndPort & i) {return (uint32)(i.GetIPAddress().GetLowBits()-ADDR_BASE);}
+static const uint32 PORT_BASE = 4000;
+static IPAddressAndPort iap_of(uint32 a) {return IPAddressAndPort(IPAddress(ADDR_BASE+(a/4)), (uint16)(PORT_BASE+(a%4)));}
+static uint32 addr_of(const IPAddressAndPort & i) {return (uint32)((i.GetIPAddress().GetLowBits()-ADDR_BASE)*4 + (uint32)(i.GetPort()-PORT_BASE));}
 
 // transport of a sender: muscle's ByteBufferPacketDataIO, except that after <budget> writes it reports "would block"
 class BudgetIO : public ByteBufferPacketDataIO
